@@ -17,6 +17,10 @@ def run(res):
     CH = {'c1': ('A', ('on_remove',)), 'c2': ('B', ('on_remove',)), 'c3': ('A', ())}
     K3 = wc.base(Acts={'create', 'add', 'delete', 'process', 'fault'}, Ids={1, 2}, MaxAuto=0, Types=wc.T2, Bases=wc.BASES2, **wc.comps(CH, falsy={'c1'}))
     wc.check_and_replay(res, 'c01_callbacks', K3, own | {'log'}, depth_all=0, walks=1000)
+    # clear() during which an on_remove callback schedules the deletion of another (possibly already torn down) entity:
+    # nothing stays pending, the identifiers handed out afterwards name living entities
+    K4 = wc.base(Acts={'create', 'add', 'delete', 'process', 'clear', 'fault'}, Ids={1, 2}, MaxAuto=2, Types=wc.T2, Bases=wc.BASES2, **wc.comps(CH))
+    wc.check_and_replay(res, 'c01_clear_callbacks', K4, own | {'log'}, depth_all=0, walks=1000)
     # (B) recorded executions over larger pools (10 ids incl. non-integer ones, 10 components, diamond), validated by TLC
     th = res.tier == 'thorough'
     wc.trace_validate(res, 'c01_recorded', wc.big({'create', 'create2', 'add', 'remove', 'delete', 'process', 'clear', 'fault'}), 2000 if th else 150, 60)
